@@ -33,6 +33,7 @@ def bootstrap():
     import pysam
     import mchap
     from mchap.application import assemble, baseclass, call, call_exact, call_pedigree
+    from mchap.application import cli
     from mchap.io.vcf import headermeta
     from mchap import jitutils
     from mchap.assemble import mcmc as amcmc
@@ -41,7 +42,7 @@ def bootstrap():
 
     if not os.path.abspath(mchap.__file__).startswith(os.path.abspath(REPO) + os.sep):
         raise HarnessError("mchap imported from %s, not %s" % (mchap.__file__, REPO))
-    _BOOT.update(np=np, pysam=pysam, assemble=assemble, baseclass=baseclass, call=call, call_exact=call_exact,
+    _BOOT.update(cli=cli, np=np, pysam=pysam, assemble=assemble, baseclass=baseclass, call=call, call_exact=call_exact,
                  call_pedigree=call_pedigree, headermeta=headermeta, jitutils=jitutils, amcmc=amcmc,
                  cclasses=cclasses, pclasses=pclasses)
     return _BOOT
@@ -447,16 +448,23 @@ class ProcessSim:
                     before_locus(locus)
                     return orig_call_locus(self_, locus, sample_bams)
                 program_cls.call_locus = call_locus
-            prog = program_cls.cli(argv)
+            saved_argv = sys.argv
+            sys.argv = list(argv)
             sys.stdout = out
             try:
-                prog.run_stdout()
+                # the real entry point: what the `mchap` console script calls
+                m["cli"].main()
             except SimAbort as e:
                 raise e.violation
             except Violation:
                 raise
+            except SystemExit as e:
+                if e.code not in (0, None):
+                    err = e
             except Exception as e:
                 err = e
+            finally:
+                sys.argv = saved_argv
         finally:
             sys.stdout = saved[2]
             baseclass.mp, headermeta._date = saved[0], saved[1]
